@@ -107,12 +107,17 @@ class C02(Prop):
         return rows
 
     def generate(self, rng, tier):
-        n = rng.choice([1, 2, 2, 3, 3, 4, 5])
-        R = rng.choice([2, 2, 3, 4, 5, 6])
-        k = rng.choice([1, 1, 2, 2, 3, 3, 4])
-        mode = rng.choice(["bits", "counts", "counts"])
-        msms = rng.random() < 0.4
-        has_xadd = msms or rng.random() < 0.5
+        return self.build(rng)
+
+    def build(self, rng, **force):
+        """one abstract batch; `force` pins any of n, R, k, mode, msms, has_xadd, has_xml, has_csv, has_acq, dirty, methods"""
+        pick = lambda key, default: force[key] if key in force else default
+        n = pick("n", rng.choice([1, 2, 2, 3, 3, 4, 5]))
+        R = pick("R", rng.choice([2, 2, 3, 4, 5, 6]))
+        k = pick("k", rng.choice([1, 1, 2, 2, 3, 3, 4]))
+        mode = pick("mode", rng.choice(["bits", "counts", "counts"]))
+        msms = pick("msms", rng.random() < 0.4)
+        has_xadd = msms or pick("has_xadd", rng.random() < 0.5)
         elems = sorted(rng.sample(ELEMENTS, k), key=lambda e: e[1])
         masses = []
         for i, (nm, mz) in enumerate(elems):
@@ -142,7 +147,7 @@ class C02(Prop):
         rng.shuffle(acquired)  # acquisition order
         # ---- log: the final successful acquisition of each line, with failures and re-acquisitions before it
         log = []
-        dirty = rng.random() < 0.55
+        dirty = pick("dirty", rng.random() < 0.55)
         for nm in acquired:
             log.append({"result": "Pass", "name": nm})
         failed_only = []
@@ -170,9 +175,9 @@ class C02(Prop):
         if rng.random() < 0.08 and n >= 2:  # a logged, passed file that is not on disk: the log methods must be rejected
             missing_logged = rng.choice(acquired)
             on_disk.remove(missing_logged)
-        has_xml = rng.random() < 0.7
-        has_csv = rng.random() < 0.7
-        has_acq = rng.random() < 0.6
+        has_xml = pick("has_xml", rng.random() < 0.7)
+        has_csv = pick("has_csv", rng.random() < 0.7)
+        has_acq = pick("has_acq", rng.random() < 0.6)
         xml_entries = [{"result": e["result"], "file": e["file"]} for e in log]
         if has_xml and not has_csv and rng.random() < 0.1:  # an entry without DataFileName (XML only)
             xml_entries.insert(rng.randint(0, len(xml_entries)), {"result": "Pass", "file": None})
@@ -231,7 +236,7 @@ class C02(Prop):
         if rng.random() < 0.15:
             listing.append({"name": rng.choice(["notes.txt", "5.d.bak", "77.dat", "readme"]), "dir": rng.random() < 0.5})
         rng.shuffle(listing)
-        nm_methods = rng.choice([["batch_xml", "batch_csv"], ["batch_xml", "batch_csv"], ["batch_csv", "batch_xml"],
+        nm_methods = pick("methods", None) or rng.choice([["batch_xml", "batch_csv"], ["batch_xml", "batch_csv"], ["batch_csv", "batch_xml"],
                                  ["batch_xml", "batch_csv", "acq_method_xml", "alphabetical"], ["acq_method_xml", "alphabetical"],
                                  ["alphabetical"], ["batch_csv"], ["acq_method_xml"], ["batch_xml", "alphabetical"],
                                  rng.sample(METHODS, rng.randint(1, 4))])
@@ -242,13 +247,61 @@ class C02(Prop):
                 "scan_start": rng.choice([208, 208, 92, 160, 333]), "seed": rng.getrandbits(32)}
 
     def targeted(self, tier):
+        import itertools
         import random
 
-        # sizes 1 and 2 for lines and masses, every metadata subset on a fixed small batch
-        for i in range(40):
-            rng = random.Random(f"C02-targeted-{i}")
-            c = self.generate(rng, tier)
-            yield c
+        # the two repaired defects, as minimal batches
+        yield self.fixed_log_case()
+        yield self.fixed_offset_case(1)
+        yield self.fixed_offset_case(2)
+        # every subset of the optional metadata files x smallest sizes (1 and 2 lines / masses, 2 scans), MS and MS/MS
+        i = 0
+        for has_xml, has_csv, has_acq, has_xadd in itertools.product([False, True], repeat=4):
+            for n, k, msms in ((1, 1, False), (2, 2, False), (2, 1, True), (3, 2, True), (1, 3, False), (5, 4, True)):
+                rng = random.Random(f"C02-targeted-{i}")
+                i += 1
+                yield self.build(rng, n=n, k=k, R=2 if i % 2 else 3, msms=msms and has_xadd, has_xadd=has_xadd, has_xml=has_xml,
+                                 has_csv=has_csv, has_acq=has_acq, dirty=bool(i % 3),
+                                 methods=[["batch_xml", "batch_csv"], ["batch_csv", "batch_xml", "acq_method_xml", "alphabetical"],
+                                          ["acq_method_xml", "alphabetical"], ["alphabetical"]][i % 4])
+
+    @staticmethod
+    def plain_file(name, k, R, base, csv=True, accs=None):
+        bc = 28 * k
+        vals = [[tok(float(base + 100 * r + j + 0.25)) for j in range(k)] for r in range(R)]
+        ticks = [10 + 40 * r for r in range(R)]
+        f = {"name": name, "binary": True, "scans": [{"off": 68 + r * bc, "bc": bc, "ticks": ticks[r]} for r in range(R)],
+             "vals": vals, "csv": None}
+        if csv:
+            rows = [[f"{ticks[r] / TICK * 60:.4f}"] + [f"{f64(vals[r][j]) / float(accs[j]):.2f}" for j in range(k)] for r in range(R)]
+            f["csv"] = {"pre": [WIN + name, "Intensity Vs Time,CPS", "Acquired      : now using Batch synthetic.b"],
+                        "header": ["Time [Sec]"] + [f"E{j}{10 + j}" for j in range(k)], "rows": rows,
+                        "foot": ["", "", "          Printed:now"], "eol": "\r"}
+        return f
+
+    def fixed_log_case(self):
+        """DESIGN 5.2 / 92e0f8d: log 1.d, 2.d (Fail), 3.d, 1.d  ->  [3.d, 1.d]"""
+        k, R = 3, 2
+        accs = ["0.1", "0.25", "1"]
+        names = ["1.d", "2.d", "3.d"]
+        log = [("1.d", "Pass"), ("2.d", "Fail"), ("3.d", "Pass"), ("1.d", "Pass")]
+        files = [self.plain_file(nm, k, R, 1000 * (i + 1), True, accs) for i, nm in enumerate(names)]
+        return {"kind": "batch", "k": k, "R": R, "mode": "counts", "msms": False, "decimals": 2,
+                "xspecific": [{"name": f"E{j}", "mass": 10 + j, "acctime": accs[j]} for j in range(k)], "xadd": None,
+                "listing": [{"name": "3.d", "dir": True}, {"name": "BatchLog.csv", "dir": False}, {"name": "1.d", "dir": True},
+                            {"name": "Method", "dir": True}, {"name": "2.d", "dir": True}],
+                "xml": [{"result": r, "file": WIN + nm} for nm, r in log],
+                "csv": [{"id": i + 1, "file": WIN + nm, "result": r} for i, (nm, r) in enumerate(log)], "acq": None,
+                "files": files, "methods": ["batch_csv", "batch_xml"], "use_acq": False, "cps": True, "scan_start": 208, "seed": 1}
+
+    def fixed_offset_case(self, k):
+        """0904cc9: one line, k = 1 or 2 masses, three scans, instrument layout SpectrumOffset = 68 + r*28k"""
+        accs = ["0.1", "0.25"][:k]
+        return {"kind": "batch", "k": k, "R": 3, "mode": "counts", "msms": False, "decimals": 2,
+                "xspecific": [{"name": f"E{j}", "mass": 10 + j, "acctime": accs[j]} for j in range(k)], "xadd": None,
+                "listing": [{"name": "7.d", "dir": True}], "xml": None, "csv": None, "acq": None,
+                "files": [self.plain_file("7.d", k, 3, 1000, True, accs)], "methods": ["alphabetical"], "use_acq": False,
+                "cps": False, "scan_start": 208, "seed": 2}
 
     # ------------------------------------------------------------------ writer
     def write_batch(self, case, root: pathlib.Path):
